@@ -119,6 +119,19 @@ def type_writes_gated(F, R, tag="C01-e"):
     R.floor(tag + " writes of type resolutions", n_w, 12)
 
 
+def type_import_tests(F, R, tag="C01-e"):
+    """tests for `this import is type-only` compare with `==` (the resolution-mode attribute is
+    honoured for type imports and declaration files only)"""
+    b = F.body("graph::fill_module_dependencies")
+    cmp_ = [n for n in b["_nodes"] if n.get("k") == "Binary" and n["op"] in ("==", "!=") and any(ctor_of(peel(n[s_])) == "graph::ImportKind::TsType" for s_ in ("l", "r"))]
+    for n in cmp_:
+        par = n.get("_p") or {}
+        neg = par.get("k") == "Unary" and par.get("op") == "!"
+        R.ob(tag, "`is this a type-only import` is decided positively", (n["op"] == "==") != neg,
+             "`%s`: the type-only test is inverted, so `resolution-mode` import attributes are applied to code imports and ignored on type imports (the resolver is then asked with the wrong mode)" % expr_text(n), where(n))
+    R.floor(tag + " type-only tests", len(cmp_), 1)
+
+
 def descriptor_loops_complete(F, R, tag="C01-c"):
     """every declared reference is processed: the loops that turn ModuleInfo
     lists into dependencies have no early `break` / `return`"""
@@ -396,6 +409,7 @@ def run(F, R, tier):
     import_literals(F, R)
     descriptor_loops_complete(F, R)
     type_writes_gated(F, R)
+    type_import_tests(F, R)
     aw = [n for n in F.all_nodes() if not n["_top"].get("derived") and n["k"] in ("Assign", "AssignOp") and peel(n["l"]).get("k") == "Field" and peel(n["l"])["field"] == "is_asset" and peel(n["l"]).get("adt") == "graph::PendingDynamicBranch"]
     R.floor("C01-d writes to PendingDynamicBranch::is_asset", len(aw), 1)
     for w in aw:
